@@ -131,7 +131,8 @@ class Lib:
             except self.err:
                 err = True
         elif op == "GetColors":
-            v = u.get_fg_bg_colors(hex=True) if arg[0] == "colorshex" else u.get_fg_bg_colors()
+            v = (u.get_fg_bg_colors(hex=True) if arg[0] == "colorshex"
+                 else u.get_fg_bg_colors(hex=False) if arg[0] == "colorsnohex" else u.get_fg_bg_colors())
             real = ("#%02x%02x%02x" % FG, "#%02x%02x%02x" % BG) if arg[0] == "colorshex" else (FG, BG)
             res = ["real" if v == real else "none" if v == (None, None) else f"other:{v!r}"]
         elif op == "GetName":
@@ -242,7 +243,7 @@ def gen_history(rng, length):
         elif r < 0.82:
             ops.append(("GetRatio", []))
         elif r < 0.94:
-            ops.append(("GetColors", [rng.choice(["colors", "colorshex"])]))
+            ops.append(("GetColors", [rng.choice(["colors", "colorshex", "colorsnohex"])]))
         else:
             ops.append(("GetName", ["name"]))
     return env, ops
